@@ -100,6 +100,10 @@ class SelWorld:
         self.R = transit.TransitReceiver(relay_r, no_listen="R" in nl, reactor=reactor)
         self.S.set_transit_key(KEY)
         self.R.set_transit_key(KEY)
+        # another transfer of the same process (another wormhole, another key) is being set up meanwhile: nothing of it may
+        # show in this one
+        self.bystander = transit.TransitReceiver(None, no_listen=True, reactor=reactor)
+        self.bystander.set_transit_key(OTHERKEY)
         hs, hr = [], []
         self.S.get_connection_hints().addCallback(hs.append)
         self.R.get_connection_hints().addCallback(hr.append)
